@@ -214,6 +214,71 @@ class Runner:
             self.relearn(p, kind, prop)
         self.read_all("after-remove")
 
+    def op_ordered(self):
+        """a remove and a set of the same property in one PROPPATCH: instructions apply in document order"""
+        w, rng, res = self.w, self.rng, self.res
+        p, kind, backend, meta = rng.choice(COLS)
+        prop = rng.choice(PROPS[kind])
+        v = gen_value(rng, prop, meta, allow_nl=False)
+        order = rng.choice(["remove-then-set", "set-then-remove"])
+        instr = [("remove", prop), ("set", prop, v)] if order == "remove-then-set" else [("set", prop, v), ("remove", prop)]
+        s, r = w.call("proppatch-ordered", "PROPPATCH", w.url(p), [X.XML_CT], X.proppatch_ordered(instr))
+        ok = False
+        if r.status == 207:
+            try:
+                rs, _ = X.parse_multistatus(r.body)
+                ok = bool(rs) and rs[0].prop_status(prop) == 200
+            except X.MalformedXML:
+                ok = False
+        self.log.append({"op": order, "col": p, "prop": prop, "value": v, "http": s.status, "ok": ok})
+        res.evaluations += 1
+        res.count("ordered_proppatches")
+        res.count("ordered_proppatch:%s:%s" % (order, "200" if ok else s.status))
+        if ok:
+            if order == "remove-then-set":
+                self.model[p][prop] = v
+                self.removed[p].pop(prop, None)
+                self.provenance[p][prop] = "PROPPATCH remove-then-set in one request"
+            else:
+                self.model[p].pop(prop, None)
+                self.removed[p][prop] = v
+        elif s.status >= 500 or s.status == 0:
+            self.relearn(p, kind, prop)
+        self.read_all("after-" + order)
+
+    def op_locked(self):
+        """a property set while another git process holds the index lock of a tree-git collection: it is either
+        refused or stored - an answer of 200 is a promise"""
+        import os
+        w, rng, res = self.w, self.rng, self.res
+        cands = [c for c in COLS if c[2] == "tree"]
+        if not cands:
+            return
+        p, kind, backend, meta = rng.choice(cands)
+        lock = os.path.join(w.fs_path(p), ".git", "index.lock")
+        if os.path.exists(lock) or not os.path.isdir(os.path.dirname(lock)):
+            return
+        prop = rng.choice(PROPS[kind])
+        v = gen_value(rng, prop, meta, allow_nl=False)
+        open(lock, "wb").close()
+        try:
+            s, r, results = w.proppatch(p, sets=[(prop, v)])
+        finally:
+            try:
+                os.unlink(lock)
+            except FileNotFoundError:
+                pass
+        st = results.get(prop)
+        self.log.append({"op": "set-while-index-locked", "col": p, "prop": prop, "value": v, "http": s.status, "propstat": st})
+        res.evaluations += 1
+        res.count("sets_while_locked")
+        res.count("set_while_locked_status:%s" % (st if st is not None else "http-%s" % s.status))
+        if st == 200:
+            self.model[p][prop] = v
+            self.removed[p].pop(prop, None)
+            self.provenance[p][prop] = "PROPPATCH while .git/index.lock was held by another process"
+        self.read_all("after-set-while-locked")
+
     def relearn(self, p, kind, prop):
         s2, r2 = self.w.propfind(self.w.url(p), [prop], "0", record=False)
         try:
@@ -340,7 +405,7 @@ def run_shard(args):
                 res.inconclusive.append("typing a plain collection as address book by PROPPATCH did not work: %r" % (o.get("rt"),))
         run.log.append({"op": "create-with-props", "cal0": [v1, v2], "ab0": [v3, v4]})
         run.read_all("after-create")
-        ops = [("set", 10), ("set_multi", 3), ("remove", 2), ("unsettable", 1), ("restart", 0.6), ("other", 1.5)]
+        ops = [("set", 10), ("set_multi", 3), ("remove", 2), ("unsettable", 1), ("restart", 0.6), ("other", 1.5), ("ordered", 2), ("locked", 1.2)]
         for i in range(args["ops"]):
             op = rng.choices([o for o, _ in ops], [x for _, x in ops])[0]
             getattr(run, "op_" + op)()
@@ -364,7 +429,8 @@ def check(tier, seed, t0):
     c = merged["counters"]
     k = 1 if not th else 10
     guards = [("sets", c.get("sets", 0), 300 * k), ("sets reported 200", c.get("sets_ok", 0), 300 * k), ("value comparisons after read-back", c.get("value_comparisons", 0), 3000 * k),
-              ("restarts", c.get("restarts", 0), 12), ("address books typed after their properties were set", sum(v for k_, v in c.items() if k_.startswith("ab0_created_by:") and k_ != "ab0_created_by:extended-MKCOL"), 3), ("removes", c.get("removes", 0), 50 * k), ("removes reported 200", c.get("removes_ok", 0), 40 * k), ("reads of a removed property", c.get("removed_value_checks", 0), 200 * k), ("PROPPATCH requests setting several properties", c.get("multi_sets", 0), 80 * k)]
+              ("restarts", c.get("restarts", 0), 12), ("address books typed after their properties were set", sum(v for k_, v in c.items() if k_.startswith("ab0_created_by:") and k_ != "ab0_created_by:extended-MKCOL"), 3), ("removes", c.get("removes", 0), 50 * k), ("removes reported 200", c.get("removes_ok", 0), 40 * k), ("reads of a removed property", c.get("removed_value_checks", 0), 200 * k),
+              ("PROPPATCH requests with a remove and a set of one property", c.get("ordered_proppatches", 0), 40 * k), ("property sets while the index lock was held", c.get("sets_while_locked", 0), 15 * k), ("PROPPATCH requests setting several properties", c.get("multi_sets", 0), 80 * k)]
     for f in ("percent", "hash", "backslash", "dquote", "bracket", "equals", "colon", "nonascii", "plain"):
         guards.append(("successful sets with feature " + f, c.get("sets_ok:" + f, 0), 3))
     return common.finish(PROP, tier, seed, "exploration", merged, failures, RULE, t0, guards=guards,
